@@ -29,11 +29,11 @@ RULE = ("seeded calls of every sampler and of BezierCurve/BezierPatch: boxes of 
         "nets of degree 0-6 (x 0-6) in dimension 1-4 with hostile magnitudes, evaluated at boundary / denormal / random parameters, "
         "exported with n and (n1, n2) in 2..9. Non-trivial = radius != 1, non-unit box, mesh with >= 2 elements, degree >= 2, "
         "n1 != n2; distinct = distinct case descriptor hash")
-REQUIRED = {"count": 300, "domain/box_uniform": 1000, "domain/box_grid": 1000, "domain/box_grid_span": 40, "domain/sphere": 1000,
-            "domain/ball": 1000, "domain/polyline": 1000, "domain/surface": 1000, "domain/normals": 300,
-            "share/polyline": 60, "share/surface": 60, "bernstein/curve": 500, "bernstein/patch": 500,
-            "interp/curve": 100, "interp/patch": 100, "hull/curve": 200, "hull/patch": 200,
-            "reject/curve": 300, "reject/patch": 300, "export/as_polyline": 100, "export/as_surface": 100,
+REQUIRED = {"count": 400, "domain/box_uniform": 3000, "domain/box_grid": 10000, "domain/box_grid_span": 60, "domain/sphere": 3000,
+            "domain/ball": 3000, "domain/polyline": 100000, "domain/surface": 100000, "domain/normals": 5000,
+            "share/polyline": 40, "share/surface": 80, "bernstein/curve": 1500, "bernstein/patch": 1500,
+            "interp/curve": 400, "interp/patch": 400, "hull/curve": 1500, "hull/patch": 1500,
+            "reject/curve": 1500, "reject/patch": 3000, "export/as_polyline": 2000, "export/as_surface": 1500,
             "export/as_surface_n1_ne_n2": 40}
 CASE_TIMEOUT = {"quick": 120.0, "thorough": 300.0}
 
@@ -100,7 +100,7 @@ def cases(seed, tier):
     n_pd = 70 if quick else 5000
     for i in range(n_pd):
         out.append({"gen": "polyline", "seed": S(), "cls": Z.POLYLINE_CLASSES[i % len(Z.POLYLINE_CLASSES)],
-                    "ne": rng.choice([1, 2, 3, 5, 12, 40, 120]), "n": rng.choice([1, 10, 80, 200]), "cloud": i % 3 == 1,
+                    "ne": rng.choice([1, 2, 3, 5, 12, 40, 120]), "n": rng.choice([1, 10, 80, 200]), "cloud": (i // 6) % 3 == 1,
                     "vrows": ["list", "tuple", "nprow", "vec"][i % 4], "irows": ["list", "tuple", "npint"][(i // 4) % 3],
                     "scale": rng.choice([1.0, 1.0, 1e-3, 1e3]), "shift": rng.choice([0.0, 0.0, 10.0, 1e4])})
     n_sd = 90 if quick else 6000
@@ -144,10 +144,10 @@ def cases(seed, tier):
             out.append({"gen": "patch", "seed": S(), "cls": "generic", "m": 1 + (n1 + rep) % 3, "n": 1 + (n1 + 2 * rep + 1) % 3, "dim": 3,
                         "ptype": "list", "pairs": [[n1, n2] for n2 in range(2, hi + 1)], "light": True})
     # a readable sample: the first non-trivial case of six families
-    want = {"box:grid": lambda d: d["cls"] == "intcorners" and d["dim"] == 2 and d["n"] <= 16 and not d["cloud"],
-            "ball": lambda d: d["r"] < 1 and d["n"] <= 20 and not d["cloud"],
+    want = {"box:grid": lambda d: d["cls"] in ("intcorners", "arbitrary", "negative") and d["dim"] <= 2 and 2 <= d["n"] <= 32 and not d["cloud"],
+            "ball": lambda d: d["r"] < 1 and d["n"] == 20 and not d["cloud"] and d["ccls"] in ("origin", "unit"),
             "share_surface": lambda d: True,
-            "patch": lambda d: d.get("light") is None and d["dim"] == 3 and d["pairs"][0][0] != d["pairs"][0][1] and max(d["pairs"][0]) <= 5,
+            "patch": lambda d: d.get("light") is None and d["dim"] == 3 and d["pairs"][0][0] != d["pairs"][0][1] and max(d["pairs"][0]) <= 5 and d["cls"] in ("generic", "integer", "repeated", "collinear"),
             "curve": lambda d: d["deg"] == 2 and d["dim"] == 2 and d["cls"] in ("generic", "integer"),
             "share_polyline": lambda d: d["ne"] <= 7}
     for fam, pred in want.items():
